@@ -39,6 +39,7 @@ def gen_case(rng: random.Random, tier: str):
     cfg["compiled"] = False  # unions are never compiled; compiled readers of nested structs vs the writer is C03's matter
     sw = gen.gen_swarm(rng)
     sw.update({"union": True, "nested": True, "eof": False, "leb": False, "dynunion": False, "wchar": False, "float": False})
+    sw["discard"] = False  # repeated '_' fields share one attribute: dumping them is deliberately not byte-faithful
     sw["bits"] = False  # dumping bit-fields is C06; a signed storage unit with its top bit set cannot be dumped at all
     for k in ("anon", "array", "enum"):
         if rng.random() < 0.5:
@@ -72,8 +73,16 @@ def gen_case(rng: random.Random, tier: str):
         v = gen.gen_value(rng, defs, p)
         if v is not None:
             kw = {"path": p["path"], "val": v, "positional": rng.random() < 0.3 and p["path"][0] == root["fields"][0]["name"] and v["k"] in ("int", "enum")}
+    # a union EXTENDED through the Python API after it was declared (and, mostly, already used): one more member, wider
+    # than all declared ones, added with add_field()
+    grow = None
+    if rng.random() < 0.2:
+        grow = {"g": rng.randint(1, 5), "t": rng.choice(["uint8", "char", "uint16"]), "pre": rng.random() < 0.8,
+                "batch": rng.random() < 0.4}
+        for _ in range(rng.randint(0, 3)):
+            ops.insert(rng.randint(0, len(ops)), {"op": "set_array", "path": ["zz_wide"], "seed": rng.getrandbits(30)})
     return {"cfg": cfg, "defs": defs, "init": rng.choice(["parse", "parse", "default", "kw"]), "seed": rng.getrandbits(32),
-            "holder": rng.random() < 0.3, "ops": ops, "kw": kw}
+            "holder": rng.random() < 0.3, "ops": ops, "kw": kw, "grow": grow}
 
 
 def _walk(t, base, path, out, mask, depth=0):
@@ -196,7 +205,28 @@ def run_case(case, stats):
         raise Discard("dynamic_union")
     # stand-alone member parses are done with the types of a SECOND cstruct object (same definitions), so that the reference
     # shares no state with the union under test
-    Uref = getattr(gen.make_cs(cfg, gen.render(case["defs"])), case["defs"]["structs"][-1]["name"])
+    csref = gen.make_cs(cfg, gen.render(case["defs"]))
+    Uref = getattr(csref, case["defs"]["structs"][-1]["name"])
+    grow = case.get("grow")
+    if grow:
+        if grow["pre"]:
+            # the declared union is used before it is extended: whatever it remembers from that must not survive
+            for fn_ in (lambda: U(bytes(U.size)).dumps(), lambda: U().dumps(), lambda: len(U), lambda: U(bytes(U.size)) == U()):
+                try:
+                    fn_()
+                except Exception:  # noqa: BLE001
+                    pass
+        n_el = -(-(U.size + grow["g"]) // gen.SIZES[grow["t"]])
+        try:
+            for c_, T_ in ((cs, U), (csref, Uref)):
+                if grow["batch"] and T_ is U:
+                    with T_.start_update():
+                        T_.add_field("zz_wide", c_.resolve(grow["t"])[n_el])
+                else:
+                    T_.add_field("zz_wide", c_.resolve(grow["t"])[n_el])
+        except Exception as ex:  # noqa: BLE001
+            raise Violation("extend", "add_field_raised", f"adding a wider member to the declared union raised {type(ex).__name__}: {ex}")
+        stats.count("probe.union_extended_after_use" if grow["pre"] else "probe.union_extended_before_use")
     ref_type = {f._name: rf.type for f, rf in zip(U.__fields__, Uref.__fields__)}
     size = U.size
     # ---- size clause
